@@ -120,7 +120,7 @@ def generate(src):
         def ev_Call(self, e, st, k, K):
             self.cur_env = st.env; return super().ev_Call(e, st, k, K)
         def ev_IfExp(self, e, st, k, K):
-            return self.ev(e.test, st, lambda s, v: self.branch(s, truthy(v), lambda a: self.ev(e.body, a, k, K), lambda b: self.ev(e.orelse, b, k, K)), K)
+            return self.ev(e.test, st, lambda s, v: self.branch(s, truthy(v, s), lambda a: self.ev(e.body, a, k, K), lambda b: self.ev(e.orelse, b, k, K)), K)
         def find_handler(self, name, recv=None):
             if name == 'cls' or (name.isidentifier() and name in getattr(self, 'cur_env', {}) and name not in self.handlers): return h_dynamic          # a local variable is called: dynamic callee
             h = super().find_handler(name, recv)
